@@ -18,10 +18,12 @@ pub struct Report {
     pub samples: Vec<String>,
     pub extra: BTreeMap<String, u64>,
     pub progress: String,
+    /// lines for the model driver (stateless ops: `setalg`, `ser`), replayed by `gmodel`
+    pub transcript: Vec<String>,
 }
 impl Report {
     fn new(prop: &str) -> Report {
-        Report { prop: prop.into(), evaluations: 0, tuples: BTreeSet::new(), fails: vec![], samples: vec![], extra: BTreeMap::new(), progress: String::new() }
+        Report { prop: prop.into(), evaluations: 0, tuples: BTreeSet::new(), fails: vec![], samples: vec![], extra: BTreeMap::new(), progress: String::new(), transcript: vec![] }
     }
     /// what is about to be executed, for the case that the process does not survive it
     fn about_to(&self, text: &str) {
@@ -91,11 +93,21 @@ pub fn cmd_extra(args: &[String]) {
         }
         fails_json.push(format!("{{\"prop\":{},\"what\":{},\"replay\":{}}}", js(p), js(what), js(&path)));
     }
+    let mut tpath = String::new();
+    if !rep.transcript.is_empty() && report != "/dev/null" {
+        tpath = format!("{report}.transcript");
+        let mut text = crate::header(&format!("extra-{which}"), HKind::Mul);
+        text.push('\n');
+        text.push_str(&rep.transcript.join("\n"));
+        text.push('\n');
+        let _ = std::fs::write(&tpath, text);
+    }
     let extra: Vec<String> = rep.extra.iter().map(|(k, v)| format!("{}:{}", js(k), v)).collect();
     let samples: Vec<String> = rep.samples.iter().take(3).map(|s| js(s)).collect();
     let out = format!(
-        "{{\"slice\":{},\"evaluations\":{},\"distinct_nontrivial\":{},\"fails\":[{}],\"samples\":[{}],\"detail\":{{{}}}}}",
+        "{{\"slice\":{},\"transcript\":{},\"evaluations\":{},\"distinct_nontrivial\":{},\"fails\":[{}],\"samples\":[{}],\"detail\":{{{}}}}}",
         js(which),
+        js(&tpath),
         rep.evaluations,
         rep.tuples.len(),
         fails_json.join(","),
@@ -327,6 +339,7 @@ fn sets(rep: &mut Report, seed: u64, scale: u64) {
         let pa = a.verif_state().old.is_some();
         let pb = b.verif_state().old.is_some();
         rep.tuples.insert(format!("phases {pa}/{pb} sizes {}/{} overlap {}", ra.len().min(3), rb.len().min(3), ra.intersection(&rb).count().min(2)));
+        let mut tlines: Vec<String> = vec![];
         let r = catch_unwind(AssertUnwindSafe(|| {
             let mut problems: Vec<String> = vec![];
             let chk = |name: &str, got: Vec<u64>, want: Vec<u64>, problems: &mut Vec<String>| {
@@ -373,6 +386,22 @@ fn sets(rep: &mut Report, seed: u64, scale: u64) {
                 if first.is_some() != !want.is_empty() || c4.iter().any(|k| k.k() % 3 == 0) || c4.len() != rc4.len() - want.len() {
                     problems.push("drain_filter (set): dropped early, matching elements remain / wrong length".into());
                 }
+            }
+            // the same adaptors, in lock-step with `GriddleModel/Set.lean`: what they yield, in order, as a function of
+            // the two iteration sequences and lengths
+            {
+                let ks = |v: Vec<u64>| -> String { if v.is_empty() { "-".into() } else { v.iter().map(|x| x.to_string()).collect::<Vec<_>>().join(",") } };
+                let ai: Vec<u64> = a.iter().map(|k| k.k()).collect();
+                let bi: Vec<u64> = b.iter().map(|k| k.k()).collect();
+                tlines.push(format!(
+                    "setalg 0 | ai={} al={} bi={} bl={} | union={} inter={} diff={} symdiff={} disjoint={} subset={} superset={} eq={} panic=-",
+                    ks(ai), a.len(), ks(bi), b.len(),
+                    ks(a.union(&b).map(|k| k.k()).collect()),
+                    ks(a.intersection(&b).map(|k| k.k()).collect()),
+                    ks(a.difference(&b).map(|k| k.k()).collect()),
+                    ks(a.symmetric_difference(&b).map(|k| k.k()).collect()),
+                    a.is_disjoint(&b) as u8, a.is_subset(&b) as u8, a.is_superset(&b) as u8, (a == b) as u8
+                ));
             }
             chk("union", a.union(&b).map(|k| k.k()).collect(), ra.union(&rb).copied().collect(), &mut problems);
             chk("union (swapped)", b.union(&a).map(|k| k.k()).collect(), ra.union(&rb).copied().collect(), &mut problems);
@@ -528,6 +557,7 @@ fn sets(rep: &mut Report, seed: u64, scale: u64) {
             problems
         }));
         rep.evaluations += 1;
+        rep.transcript.append(&mut tlines);
         let problems = match r {
             Ok(p) => p,
             Err(_) => vec![format!("panic: {}", LAST_PANIC.with(|p| p.borrow().lines().last().unwrap_or("").to_string()))],
